@@ -502,6 +502,32 @@ Definition rtp_parse1 (l : bytes) : option ((N * bytes) * bytes) :=
   | _ => None
   end.
 
+(* RFC 2326 section 10.12 in full: interleaved binary data and RTSP messages
+   share the connection.  A response (here: without body, as the reply to
+   OPTIONS is) is a header block, "RTSP/..." up to the first empty line. *)
+Definition is_crlfcrlf (l : bytes) : bool :=
+  match l with
+  | a :: b :: c :: d :: _ => (a =? 13) && (b =? 10) && (c =? 13) && (d =? 10)
+  | _ => false
+  end.
+
+Fixpoint scan_hdr (acc : bytes) (l : bytes) : option (bytes * bytes) :=
+  match l with
+  | [] => None
+  | x :: t => if is_crlfcrlf l then Some (acc ++ [13; 10; 13; 10], skipn 4 l) else scan_hdr (acc ++ [x]) t
+  end.
+
+Definition rtsp_parse1 (l : bytes) : option (((N * bytes) + bytes) * bytes) :=
+  match l with
+  | 36 :: _ => match rtp_parse1 l with Some (x, r) => Some (inl x, r) | None => None end
+  | 82 :: _ => match scan_hdr [] l with Some (h, r) => Some (inr h, r) | None => None end
+  | _ => None
+  end.
+
+(* a well-formed reply text: starts with 'R', ends with its only empty line *)
+Definition resp_ok (resp : bytes) : Prop :=
+  (exists t, resp = 82 :: t) /\ scan_hdr [] resp = Some (resp, []).
+
 (* ISO 13818-1: 188-byte packets that start with the sync byte 0x47 *)
 Definition ts_parse1 (l : bytes) : option (bytes * bytes) :=
   match split_exact 188 l with
